@@ -196,16 +196,15 @@ fn cands(tok_: &str) -> Vec<String> {
 pub fn c18(tier: &str, seed: u64, meta: &str) -> Report {
     let fp = FixedPools::load(meta, PROBHAT);
     let thorough = tier == "thorough";
-    let _ = seed;
     let fpr = &fp;
     let emoticons = emojicon::internal::emoticons();
     let names = emojicon::internal::emojis();
     let bn = emojicon::internal::bn_emojis();
-    let wrappers: Vec<(&str, &str)> = if thorough { vec![("", ""), ("(", ")"), ("\"", "\""), ("", "."), ("'", "',"), ("[", "]!")] } else { vec![("", ""), ("(", ")"), ("\"", "\".")] };
+    let wrappers: Vec<(&str, &str)> = if thorough { vec![("", ""), ("(", ")"), ("\"", "\""), ("", "."), ("(", ""), ("'", "',"), ("[", "]!")] } else { vec![("", ""), ("(", ")"), ("\"", "\"."), ("", "."), ("(", "")] };
     let n_emot = fpr.p.emoticons.len() as u64;
     let n_names = fpr.p.emoji_names.len() as u64;
     let n_bn = fpr.bn_names.len() as u64;
-    let total = n_emot + n_names + n_bn;
+    let total = n_emot + n_names + n_bn + n_emot;
     let (emoticons, names, bn, wrappers) = (&emoticons, &names, &bn, &wrappers);
     let mut rep = par_items(total, |_| (Worker2::new(fpr.p.data.clone()), HashMap::<String, Session>::new()), |st, i, rep| {
         let (w, sessions) = st;
@@ -217,6 +216,8 @@ pub fn c18(tier: &str, seed: u64, meta: &str) -> Report {
             for bits in [2u32, 3, 10, 11] {
                 for (a, b) in wrappers.iter() {
                     if is_emot && !(a.is_empty() && b.is_empty()) { continue; }
+                    // punctuation on one side only: two of the four option sets in the quick tier
+                    if !thorough && (a.is_empty() != b.is_empty()) && bits != 3 && bits != 10 { continue; }
                     let t = format!("{}{}{}", a, text, b);
                     if !fpr.p.typeable(&t) { rep.notes.push(format!("not typeable: {:?}", t)); continue; }
                     let key = format!("p{}", bits);
@@ -258,6 +259,13 @@ pub fn c18(tier: &str, seed: u64, meta: &str) -> Report {
                             for (it, e) in emo_items.iter().zip(es.iter()) { if **it != format!("{}{}{}", pre, e, post) { ok = false; } }
                             // the affixes are those of the other wrapped candidates (e.g. the transliteration)
                             if !list.iter().filter(|c| !emo_items.contains(c) && **c != t).all(|c| c.starts_with(pre) && c.ends_with(post)) { ok = false; }
+                            // and they are the typed punctuation itself: transliterated, curled when smart quotes apply
+                            let (pa, pw, pc) = crate::props::msplit(w, &t, false);
+                            if pw == text {
+                                let (ca, cc) = (w.oracle.conv(&pa), w.oracle.conv(&pc));
+                                let (ea, ec) = if bits & 8 != 0 { (crate::props::curl(&ca, true), crate::props::curl(&cc, false)) } else { (ca, cc) };
+                                if pre != ea || post != ec { ok = false; }
+                            }
                         }
                         let meta_edge = text.chars().next().map(|c| PUNCT.contains(c)).unwrap_or(false) || text.chars().last().map(|c| PUNCT.contains(c)).unwrap_or(false);
                         if !ok && meta_edge { rep.known.push(json!({"class": "name-not-a-word", "name": text, "typed": t})); }
@@ -281,6 +289,45 @@ pub fn c18(tier: &str, seed: u64, meta: &str) -> Report {
                                 "with_emoji": list, "non_emoji_part": rest, "ansi_list": l2, "session": sessions[&key].describe()}));
                         }
                     }
+                }
+            }
+        } else if i >= n_emot + n_names + n_bn {
+            // fixed method: the emoticon is looked up by the raw keys pressed, whatever the layout makes of them;
+            // typed straight away and after an erased start (a few keys, then backspaces until the composition is empty)
+            let text = fpr.p.emoticons[(i - n_emot - n_names - n_bn) as usize].clone();
+            if !fpr.p.typeable(&text) { rep.notes.push(format!("not typeable: {:?}", text)); return; }
+            let evs0 = fpr.p.key_events(&text, 0);
+            if evs0.iter().any(|e| match e { SEv::Key(k, _, _) => !fpr.km.value_of.contains_key(&(*k, false)), _ => false }) { rep.notes.push(format!("a key of {:?} has no value in Probhat", text)); return; }
+            let mut rng = Rng::new(seed ^ i.wrapping_mul(0xC18));
+            for bits in [64u32, 64 | 512 | 128 | 16] {
+                let key = format!("x{}", bits);
+                if !sessions.contains_key(&key) {
+                    let mut o = Opts::fixed(PROBHAT, &home);
+                    set_xbits(&mut o, bits);
+                    match Session::new(w, o, None, None, "c18") { Ok(s) => { sessions.insert(key.clone(), s); } Err(e) => { rep.diff(json!({"what": "context creation failed", "error": e})); return; } }
+                }
+                let s = sessions.get_mut(&key).unwrap();
+                if s.history.len() > 4000 { s.history.clear(); }
+                for erased_start in [false, true] {
+                    if erased_start {
+                        let merging: [&[&str]; 4] = [&["্", "া"], &["ে", "া"], &["ক", "্", "ি"], &["ি", "ে"]];
+                        let pre: Vec<SEv> = if rng.chance(1, 2) { merging[rng.below(4)].iter().filter_map(|v| fpr.keys_for(v)).flatten().collect() }
+                            else { (0..1 + rng.below(3)).map(|_| { let x = rng.below(fpr.km.keys.len()); SEv::Key(fpr.km.keys[x].0, fpr.km.keys[x].1, 0) }).collect() };
+                        feed(w, s, &pre, rep, "C18");
+                        let mut n = 0;
+                        while s.ctx.ongoing() && n < 12 { feed(w, s, &[SEv::Back(false)], rep, "C18"); n += 1; }
+                        if s.ctx.ongoing() { feed(w, s, &[SEv::Finish], rep, "C18"); continue; }
+                    }
+                    let mut evs = evs0.clone();
+                    evs.push(SEv::Finish);
+                    let steps = feed(w, s, &evs, rep, "C18");
+                    let list = cands(&steps[steps.len() - 2].imp);
+                    let e = emoticons[text.as_str()];
+                    if !list.iter().any(|c| c == e) {
+                        rep.fail(json!({"what": "typing an emoticon of the table in the fixed method does not offer its emoji", "typed_keys": text, "after_an_erased_start": erased_start,
+                            "method": "fixed (Probhat)", "option_bits": bits, "expected_emoji": e, "candidates": list, "session": s.describe()}));
+                    }
+                    rep.nontrivial_key(&format!("fe {} {} {}", bits, text, erased_start));
                 }
             }
         } else {
@@ -327,7 +374,7 @@ pub fn c18(tier: &str, seed: u64, meta: &str) -> Report {
             }
         }
     });
-    rep.extra.insert("rule".into(), json!(format!("ALL {} emoticons (phonetic, 4 option sets), ALL {} English emoji names (phonetic, 4 option sets x {} wrappers, each with its ANSI twin for the frame clause), ALL {} Bengali emoji names that Probhat can type (fixed, 4 option sets x {} wrappers); non-trivial = emoticon, or a name with more than one emoji", n_emot, n_names, wrappers.len(), n_bn, wrappers.len())));
+    rep.extra.insert("rule".into(), json!(format!("ALL {} emoticons (phonetic, 4 option sets), ALL {} English emoji names (phonetic, 4 option sets x {} wrappers, each with its ANSI twin for the frame clause), ALL {} Bengali emoji names that Probhat can type (fixed, 4 option sets x {} wrappers); ALL emoticons again in the fixed method by their raw keys (2 option sets, typed straight away and after an erased start: merging key pairs or random keys, then backspaces until empty); wrappers include punctuation on one side only; non-trivial = emoticon, or a name with more than one emoji", n_emot, n_names, wrappers.len(), n_bn, wrappers.len())));
     rep.extra.insert("exhaustive".into(), json!(true));
     rep
 }
